@@ -2,6 +2,7 @@ package fault
 
 import (
 	"encoding/json"
+	"fmt"
 	"reflect"
 	"testing"
 
@@ -23,6 +24,7 @@ type clientCase struct {
 	Req  json.RawMessage `json:"req"`
 	Ans  json.RawMessage `json:"ans"`
 	T    int64           `json:"t"`
+	N    int             `json:"n,omitempty"` // the request is sent this many times for one subscriber (0: once)
 }
 
 func genClient(t *rapid.T) clientCase {
@@ -41,9 +43,28 @@ func genClient(t *rapid.T) clientCase {
 }
 
 func judgeClient(c clientCase) *h.Verdict {
+	supi := env.NewSupi()
+	if c.N <= 1 {
+		return clientOnce(c, supi)
+	}
+	// one subscriber's k-th request is carried like its first
+	var v *h.Verdict
+	for k := 1; k <= c.N; k++ {
+		v = clientOnce(c, supi)
+		if v.Failed() {
+			v.Sig = "client/depends-on-requests-sent-before/" + v.Sig
+			v.Msg = fmt.Sprintf("request number %d of one subscriber: %s", k, v.Msg)
+			return v
+		}
+	}
+	v.Label("requests-of-one-subscriber>=500")
+	v.NonTrivial = true
+	return v
+}
+
+func clientOnce(c clientCase, supi string) *h.Verdict {
 	v := &h.Verdict{}
 	v.Label("client:" + c.Kind)
-	supi := env.NewSupi()
 	sub := &cdt.SubscriptionId{SubscriptionIdType: cdt.END_USER_IMSI, SubscriptionIdData: datatype.UTF8String(supi[5:])}
 	p := &subPlan{}
 	var st diamgen.FillStats
@@ -140,3 +161,36 @@ func sigTail(d string) string {
 }
 
 func TestC17Clients(t *testing.T) { h.Run(t, "C17", "clients", genClient, judgeClient) }
+
+func genClientKind(t *rapid.T, kind string) clientCase {
+	for {
+		if c := genClient(t); c.Kind == kind {
+			return c
+		}
+	}
+}
+
+// one long run per client
+func TestC17ClientsLong(t *testing.T) {
+	h.Run(t, "C17", "clients-long", func(t *rapid.T) []clientCase {
+		var out []clientCase
+		for _, k := range []string{"SUR", "CCR"} {
+			c := genClientKind(t, k)
+			c.N = rapid.IntRange(1050, h.Scale(1300, 5000)).Draw(t, "n")
+			out = append(out, c)
+		}
+		return out
+	}, func(cs []clientCase) *h.Verdict {
+		agg := &h.Verdict{}
+		for _, c := range cs {
+			v := judgeClient(c)
+			agg.Labels = append(agg.Labels, v.Labels...)
+			agg.NonTrivial = agg.NonTrivial || v.NonTrivial
+			if v.Failed() {
+				agg.Sig, agg.Msg = v.Sig, v.Msg
+				break
+			}
+		}
+		return agg
+	})
+}
